@@ -1,6 +1,6 @@
 """C10 — transport capacity is conserved (J1939-21 part proved in lean/J1939/Props/C10.lean)."""
 import random, json
-from .. import common as C, corr21, net21, sim
+from .. import common as C, corr21, corr22, net21, sim
 from ..gen21 import rand_payload, can_id, TP_CM, TP_DT
 
 PID = 'C10'
@@ -11,7 +11,9 @@ ASSUMPTIONS = ["J1939-21: single-step theorems (refusal iff busy, inbound never 
 
 
 def correspondence(ctx):
-    return corr21.run(ctx, 120 if ctx.quick else 4000, 60 if ctx.quick else 2000, 10)
+    a = corr21.run(ctx, 120 if ctx.quick else 4000, 60 if ctx.quick else 2000, 10)
+    b = corr22.run(ctx, 60 if ctx.quick else 2500, 60 if ctx.quick else 2500, 10, n_lossy=80 if ctx.quick else 3000)
+    return corr22.merge(a, b)
 
 
 class PairTracker:
@@ -21,21 +23,30 @@ class PairTracker:
         self.active = {}     # (sa, da) -> dict(start, total, sent, end)
 
     def on_frame(self, t, cid, data):
+        """a frame on the bus: what the originator itself sent is known to it"""
         prio, dp, pf, ps, sa = net21.parse_frame(cid, data)
         if pf == TP_CM and len(data) == 8:
             c = data[0]
             if c in (16, 32):
                 self.active[(sa, ps)] = dict(start=t, total=data[3], sent=0, end=None, bam=(c == 32))
-            elif c == 19 or c == 255:
-                for key in ((ps, sa), (sa, ps)):
-                    if key in self.active and self.active[key]['end'] is None and not self.active[key]['bam']:
-                        self.active[key]['end'] = t
+            elif c == 255:
+                a = self.active.get((sa, ps))          # the originator gives up (timeout)
+                if a and a['end'] is None and not a['bam']:
+                    a['end'] = t
         elif pf == TP_DT:
             a = self.active.get((sa, ps))
             if a and a['end'] is None:
                 a['sent'] += 1
                 if a['bam'] and a['sent'] >= a['total']:
                     a['end'] = t
+
+    def on_rx(self, t, cid, data):
+        """a frame a stack actually received (a lost acknowledgement or abort ends nothing)"""
+        prio, dp, pf, ps, sa = net21.parse_frame(cid, data)
+        if pf == TP_CM and len(data) == 8 and data[0] in (19, 255):
+            a = self.active.get((ps, sa))
+            if a and a['end'] is None and not a['bam']:
+                a['end'] = t
 
     def status(self, key, t):
         a = self.active.get(key)
@@ -55,8 +66,10 @@ def history_case(rng):
                         loss=lambda k, src, dst, fr: k in lose_k or (dst in drop_from and sc.w.now >= drop_from[dst]))
     tr = PairTracker()
     sc.net.taps.append(lambda src, fr: tr.on_frame(fr[0], fr[1], fr[3]))
+    sc.net.rx_taps.append(lambda dst, cid, data: tr.on_rx(sc.w.now, cid, data))
     bad = []
     steps = rng.randrange(1, 12)
+    lost0 = sorted(lose_k)
     for _ in range(steps):
         sc.net.run(rng.choice([0, 1000, 100000, 400000, 2000000]))
         i = rng.randrange(n)
@@ -68,7 +81,6 @@ def history_case(rng):
             # a peer abort for some pair
             j = rng.choice([x for x in range(n) if x != i])
             sc.net.inject(i, can_id(7, TP_CM, sc.addrs[i], sc.addrs[j]), [255, rng.choice([1, 2, 3]), 255, 255, 255, 0, 208, 0], 0)
-            tr.on_frame(sc.w.now, can_id(7, TP_CM, sc.addrs[i], sc.addrs[j]), [255, 1, 255, 255, 255, 0, 208, 0])
             continue
         if rng.random() < 0.35:
             pf, ps = rng.choice([254, 255, 240]), rng.choice([sc.addrs[rng.randrange(n)], rng.randrange(256)])
@@ -108,22 +120,78 @@ def history_case(rng):
             bad.append("after the history: " + r)
     if sc.net.errors:
         bad.append(f"exception {sc.net.errors[0]}")
-    return bad, dict(n=n, steps=steps, lost=sorted(lose_k), frames=len(sc.net.bus))
+    return bad, dict(n=n, steps=steps, lost=lost0, frames=len(sc.net.bus))
+
+
+def history_case22(rng):
+    """J1939-22: a history of transfers with lost frames, injected peer aborts and silent peers; afterwards both pools are
+    full, the tables empty, and 8 destination-specific + 4 broadcast sessions start at once and all complete"""
+    n = 2
+    drop_from = {}
+    lose_k = set(rng.sample(range(120), rng.choice([0, 1, 2, 4])))
+    sc = net21.Scenario(C.REPO, rng.getrandbits(32), n, dll='j1939-22', maxcmdt=[rng.choice([1, 2, 3, 255]) for _ in range(n)],
+                        latency=lambda r, a, b, f: r.choice([1, 1000, 5000]),
+                        loss=lambda k, src, dst, fr: k in lose_k or (dst in drop_from and sc.w.now >= drop_from[dst]))
+    bad = []
+    steps = rng.randrange(1, 14)
+    for _ in range(steps):
+        sc.net.run(rng.choice([0, 1000, 100000, 400000, 2000000, 3500000]))
+        i = rng.randrange(n)
+        r = rng.random()
+        if r < 0.1 and not drop_from:
+            drop_from[rng.randrange(n)] = sc.w.now + rng.randrange(0, 300000)
+            continue
+        if r < 0.25:
+            j = 1 - i
+            sess = rng.randrange(8)
+            sc.net.inject(i, (7 << 26) | (0x4D << 16) | (sc.addrs[i] << 8) | sc.addrs[j],
+                          [15 | (sess << 4), 255, 255, 255, 255, 255, 255, 255, rng.choice([1, 2, 3]), 0, 208, 0], 0)
+            continue
+        if rng.random() < 0.3:
+            sc.send(i, 0, rng.choice([254, 255]), rng.randrange(256), 6, rand_payload(rng, rng.choice([61, 130, 200])))
+        else:
+            sc.send(i, 0, 208, sc.addrs[1 - i], 6, rand_payload(rng, rng.choice([61, 120, 130, 300])))
+    drop_from.clear(); lose_k.clear()
+    sc.net.run(7_000_000)
+    if not sc.tables_empty():
+        bad.append(f"J1939-22 session tables not empty 7 s after the history: " +
+                   str([(hex(k), b['state']) for s in sc.stacks for k, b in s.ecu.j1939_dll._snd_buffer.items()]) +
+                   str([hex(k) for s in sc.stacks for k in s.ecu.j1939_dll._rcv_buffer]))
+    for k, s in enumerate(sc.stacks):
+        d = s.ecu.j1939_dll
+        if not bad and (not all(d._J1939_22__rts_cts_session_list) or not all(d._J1939_22__bam_session_list)):
+            bad.append(f"stack {k}: session pools not full after the history: rts/cts {d._J1939_22__rts_cts_session_list} bam {d._J1939_22__bam_session_list}")
+    if not bad:
+        sc.deliv.clear(); sc.accepted.clear()
+        for i in range(n):
+            for k in range(8):
+                if not sc.send(i, 0, 208, sc.addrs[1 - i], 6, rand_payload(rng, rng.choice([61, 130]))):
+                    bad.append(f"after the history: destination-specific session {k + 1} of 8 refused on stack {i}")
+            for k in range(4):
+                if not sc.send(i, 0, 254, k, 6, rand_payload(rng, 70)):
+                    bad.append(f"after the history: broadcast session {k + 1} of 4 refused on stack {i}")
+        sc.net.run(30_000_000, stop=lambda: sc.tables_empty() and sc.net.quiet())
+        r = net21.check_exactly_once(sc)
+        if r:
+            bad.append("after the history (8+4 at once): " + r)
+    if sc.net.errors:
+        bad.append(f"exception {sc.net.errors[0]}")
+    return bad, dict(dll='j1939-22', steps=steps, frames=len(sc.net.bus))
 
 
 def oracle(ctx, full):
     rng = random.Random(ctx.seed * 7907 + 10)
-    n = 60 if (ctx.quick and not full) else 2000
+    n = 80 if (ctx.quick and not full) else 3000
     findings, evals, distinct, samples = [], 0, set(), []
     for _ in range(n):
         sub = random.Random(rng.getrandbits(48))
-        bad, desc = history_case(sub)
+        bad, desc = history_case(sub) if evals % 2 == 0 else history_case22(sub)
         evals += 1
         distinct.add(C.struct_hash(desc))
         if len(samples) < 2:
             samples.append(desc)
         if bad:
-            findings.append(dict(signature=dict(family='capacity-history', dll='j1939-21'), what=bad[0], scenario=desc, all=bad[:5]))
+            findings.append(dict(signature=dict(family='capacity-history', dll=desc.get('dll', 'j1939-21')), what=bad[0], scenario=desc, all=bad[:5]))
             break
     return dict(findings=findings, evaluations=evals, distinct_nontrivial=len(distinct), samples=samples,
                 rule="histories of 1..11 steps on 2-3 real J1939-21 stacks: transfers (peer-to-peer and PDU1/PDU2 broadcasts, sizes 9..200) at "
